@@ -80,3 +80,30 @@ def stage(chk, quick, rng, pid, cfg, keys, build_universe):
             chk.model_drift("two-thread schedule %s step %s: %s" % tuple(d[:3]))
     chk.extra["handover_schedules"] = {"replayed": ntot, "followed_as_dictated": nfeas}
     return 0
+
+
+def stage_adversarial(chk, quick, rng, pid, cfg, keys, build_universe, make_x, what):
+    """Model-free: a relayed block X that fails full validation, with one mining round of the node's own miner placed at every call-level
+    stop of the delivery (snapshot there, found block handled there or after the delivery).  P: X is neither in the served chain state
+    nor in the store afterwards (C01/C02/C05: a block is accepted only if ...; C09: a rejected block leaves no trace)."""
+    traces = []
+    for found_now in (True, False):
+        for k in range(0, 9):
+            w, g, blocks, txs = build_universe(cfg, keys)
+            x = make_x(w, blocks)
+            run = hd.HandoverRun(w, g, [blocks[1]], x, 0, 800000 + len(traces))
+            try:
+                steps = run.adversarial(k, found_now)
+                obs = run.finish()
+            finally:
+                run.close()
+            traces.append({"k": k, "reached": steps, "found_now": found_now, "obs": obs, "errors": run.errors})
+            chk.case(("adversarial", what, k, found_now), nontrivial=True)
+            if steps < k:
+                break
+    bad = [t for t in traces if t["obs"]["x_served"] or t["obs"]["x_on_disk"]]
+    chk.extra.setdefault("mining_round_at_every_stop_of_a_rejected_delivery", {})[what] = {"runs": len(traces), "with_the_rejected_block_in_state_or_store": len(bad)}
+    for t in bad[:5]:
+        chk.violation("%s:block_that_fails_full_validation_(%s)_is_in_the_chain_state_or_store_after_a_concurrent_mining_round" % (pid, what),
+                      {"miner_snapshot_taken_at_call_stop": t["k"], "found_block_handled_at_that_stop": t["found_now"], "observed": t["obs"], "errors": t["errors"]})
+    return 0
